@@ -100,14 +100,49 @@ package provider
 //@             p.metadataEndpoint != nil && p.endpoints != nil && p.storage != nil
 //@ pure wfReq(r) = r != nil && r.URL != nil && r.Body != nil
 //@
+//@ ## ---- reply model (ghost state of A-HTTP, A-XML: see /verif/contracts/lib/http.spec, codec.spec) ----
+//@ ## msgBytes: the serialisation taken by the last Encode; it is the content the message object still has when encVer == msgver
+//@ pure msgBytes() = xml.Header + xmlenc(encTag, encRef, encVer)
+//@ pure msgCurrent() = encVer == msgver && encRef != nil
+//@ pure respMsg() = as(encRef, "samlp.ResponseType")
+//@ pure isResponse() = encTag == typetag("*samlp.ResponseType")
+//@ pure statusOf() = respMsg().Status.StatusCode.Value
+//@ pure httpError() = emitKind == 1
+//@ pure sentBody() = emitKind == 3 && emitStr == msgBytes()
+//@ pure postForm() = as(emitData, "provider.authResponseForm")
+//@ pure sentForm(tmpl, acs, relay) = emitKind == 4 && emitTmpl == tmpl && emitTag == typetag("provider.authResponseForm") &&
+//@             postForm().SAMLResponse == b64enc(msgBytes()) && postForm().AssertionConsumerServiceURL == acs && postForm().RelayState == relay
+//@ pure rq1(resp) = "SAMLResponse=" + urlEsc(resp)
+//@ pure rq2(resp, relay) = relay != "" ? rq1(resp) + ("&RelayState=" + urlEsc(relay)) : rq1(resp)
+//@ pure rq3(resp, relay, sig) = sig != "" ? rq2(resp, relay) + ("&Signature=" + urlEsc(sig)) : rq2(resp, relay)
+//@ pure redirectQuery(resp, relay, sigAlg, sig) = sigAlg != "" ? rq3(resp, relay, sig) + ("&SigAlg=" + urlEsc(sigAlg)) : rq3(resp, relay, sig)
+//@ pure sentRedirect(acs, relay, sigAlg, sig) = emitKind == 2 && emitCode == 302 &&
+//@             emitStr == acs + "?" + redirectQuery(b64enc(deflate(msgBytes())), relay, sigAlg, sig)
+//@ pure carriesNoUserData() = respMsg().Assertion.Subject == nil && len(respMsg().Assertion.AttributeStatement) == 0 &&
+//@             respMsg().Assertion.Signature == nil && respMsg().Signature == nil && len(respMsg().Assertion.AuthnStatement) == 0
+//@
 //@ func (*provider.IdentityProvider).callbackHandleFunc
 //@   inline
 //@   property C09
 //@   requires wfIDP(p) && wfReq(r) && w != nil
+//@   requires !faulted
+//@   ensures C01,C08,C10.exactly-one-reply: emitCount == old(emitCount) + 1
+//@   ensures C01,C02.reply-is-error-or-one-unmodified-response: httpError() || (isResponse() && msgCurrent() &&
+//@             (sentBody() || (arOK && sentForm(p.postTemplate, arAcsURL(arReq), arRelayState(arReq))) || (arOK && emitKind == 2 && emitCode == 302)))
+//@   ensures C01.success-only-for-a-stored-request-that-is-done: !httpError() && statusOf() == StatusCodeSuccess ==>
+//@             arOK && arKey == valuesGet(r.Form, "id") && arKey != "" && arDone(arReq)
+//@   ensures C01,C10.success-needs-userinfo-and-key: !httpError() && statusOf() == StatusCodeSuccess ==> uiOK && keyOK && appOK && !faulted
+//@   ensures C01.failure-carries-no-user-data: !httpError() && statusOf() != StatusCodeSuccess ==> carriesNoUserData() &&
+//@             (emitKind == 2 ==> sentRedirect(arAcsURL(arReq), arRelayState(arReq), "", ""))
+//@   ensures C10.fault-means-error-reply: faulted ==> (httpError() && emitCode >= 500) || statusOf() != StatusCodeSuccess
+//@   canary C01.canary-always-success: !httpError() ==> statusOf() == StatusCodeSuccess
 //@ func (*provider.IdentityProvider).ssoHandleFunc
 //@   inline
 //@   property C09
 //@   requires wfIDP(p) && wfReq(r) && w != nil
+//@   ensures C08.exactly-one-reply: emitCount == old(emitCount) + 1
+//@   ensures C08.persist-at-most-once: persistCount == old(persistCount) || persistCount == old(persistCount) + 1
+//@   ensures C08.persisted-then-login-redirect: persistCount == old(persistCount) + 1 && !persistFailed ==> emitKind == 2 && emitCode == 303
 //@ func (*provider.IdentityProvider).logoutHandleFunc
 //@   inline
 //@   property C09
